@@ -203,6 +203,7 @@ pub fn run(ctx: &Ctx) -> i32 {
     }
     // E2: sequences of month / year / day operations (state carried from one call into the next)
     crate::machine::run_datetime_machine(&mut rep, if ctx.thorough { 4 } else { 3 }, crate::machine::DtMenu::Calendar);
+    crate::machine::run_datetime_paths(&mut rep, if ctx.thorough { 5 } else { 4 }, crate::machine::DtMenu::Calendar);
     rep.finish()
 }
 
